@@ -220,8 +220,9 @@ TABLE["C13"] = {
 # bridge modules (lean/InjModel/Tie/<name>.lean: function translated from the source = model function)
 # whose theorems are proof obligations of a property
 TIES = {
-    "C01": ["X86", "Install", "InstallGeneral"], "C13": ["X86", "A64Emit"], "C10": ["X86", "Install", "SigText"], "C11": ["Alloc", "A64Install", "InstallGeneral"], "C12": ["Alloc", "Install", "Corollaries"],
-    "C02": ["Install"], "C03": ["Install", "Corollaries"], "C17": ["Install", "Corollaries"], "C15": ["A64", "A64Emit", "A64Install", "A64Long"], "C16": ["A32", "Corollaries"],
+    "C01": ["X86", "Install", "InstallGeneral"], "C13": ["X86", "A64Emit"], "C10": ["X86", "Install", "SigText", "Interface"], "C11": ["Alloc", "A64Install", "InstallGeneral"], "C12": ["Alloc", "Install", "Corollaries"],
+    "C02": ["Install", "Interface"], "C03": ["Install", "Corollaries"], "C17": ["Install", "Corollaries"], "C15": ["A64", "A64Emit", "A64Install", "A64Long"], "C16": ["A32", "Corollaries"],
+    "C04": ["Interface"], "C05": ["Interface"], "C06": ["Interface"], "C07": ["Interface"], "C09": ["Interface"], "C14": ["Interface"],
 }
 
 # which properties a translator item matters to (prefix of "File.name" -> property ids); used to
@@ -238,7 +239,7 @@ FALLBACK_RELEVANCE = [
     ("Layout.counterResetOnInstall", ["C07", "C06"]),
     ("Layout.", ["C02", "C04", "C05", "C09", "C10", "C14", "C12", "C17"]),
     ("Fns.GenX86.allocate", ["C11"]), ("Fns.GenX86.generate_branch", ["C01", "C13"]), ("Fns.GenX86.generate_will_return", ["C10"]),
-    ("Fns.GenIf", ["C10", "C05"]),
+    ("Fns.GenIf", ["C02", "C04", "C05", "C06", "C07", "C09", "C10", "C14"]),
     ("Fns.GenX86", MACHINE_PROPS), ("Fns.GenA64", ["C15", "C13", "C11"]), ("Fns.GenA32", ["C16", "C13"]),
 ]
 
